@@ -330,4 +330,14 @@ class AfterACutText(object):
         return 'ok', [], 2
 
 
-FAMILIES = [Canonical(), OneGap(), TwoGaps(), BackToBack(), AfterACutText()]
+def _shared_cache_directory():
+    from mc.checks import C17
+
+    class SharedCacheDirectory(C17.SharedCacheDirectory):
+        """The tree of a text is that of its dialect, whatever other dialect used the parser cache directory before."""
+        prefix = 'C02'
+        name = 'dialects-over-one-cache-directory'
+    return SharedCacheDirectory()
+
+
+FAMILIES = [Canonical(), OneGap(), TwoGaps(), BackToBack(), AfterACutText(), _shared_cache_directory()]
